@@ -581,6 +581,7 @@ def format_string_obligations(ctx, rep, rule, only_funcs=None, none_text=None):
             return const_text(e.left, f, depth) and const_text(e.right, f, depth)
         if isinstance(e, ast.Name) and depth < 3:
             vals = [n.value for n in ast.walk(f.node) if isinstance(n, ast.Assign) and any(isinstance(t, ast.Name) and t.id == e.id for t in n.targets)]
+            vals += [n.value for n in ast.walk(f.node) if isinstance(n, ast.AugAssign) and isinstance(n.target, ast.Name) and n.target.id == e.id]
             if vals and all(const_text(v, f, depth + 1) for v in vals) and e.id not in f.params:
                 return True
             g = f.module.globals.get(e.id)
@@ -616,7 +617,20 @@ def format_string_obligations(ctx, rep, rule, only_funcs=None, none_text=None):
                 continue
             if isinstance(node, ast.BinOp) and numeric(node.right) and not isinstance(node.right, ast.Constant):
                 continue
-            if not taint.is_tainted(fmt, f):
+            def reads_request_text(e, depth=0):
+                # <any object>.selector / .searchrequest / .request - also through a local the text was added to
+                for x in ast.walk(e):
+                    if isinstance(x, ast.Attribute) and x.attr in ("selector", "searchrequest", "request") and isinstance(x.ctx, ast.Load):
+                        return True
+                    if isinstance(x, ast.Name) and depth < 2 and x.id not in f.params:
+                        for st in ast.walk(f.node):
+                            v = st.value if (isinstance(st, ast.Assign) and any(isinstance(t, ast.Name) and t.id == x.id for t in st.targets)) or (
+                                isinstance(st, ast.AugAssign) and isinstance(st.target, ast.Name) and st.target.id == x.id) else None
+                            if v is not None and reads_request_text(v, depth + 1):
+                                return True
+                return False
+
+            if not taint.is_tainted(fmt, f) and not reads_request_text(fmt):
                 continue
             n += 1
             tries = enclosing_tries(f.node, node)
